@@ -60,12 +60,24 @@ func runC02(res *lp.Result) {
 					continue
 				}
 				id := fmt.Sprintf("v=%d kind=%s seed=%d i=%d", v, kind, *seed, i)
+				orig := f.DeepCopy()
 				var buf bytes.Buffer
 				if err := codec.EncodeFrame(f, &buf); err != nil {
 					res.Add(lp.Finding{Kind: "violation", What: "version-valid frame refused by the encoder: " + firstWords(err.Error()), Input: id + " " + show.Frame(f)})
 					continue
 				}
 				enc := append([]byte{}, buf.Bytes()...)
+				// the bytes must denote THIS frame: what they denote is read off by the decoder (the model reads them the same way —
+				// the `frame dec` line below — and its reading is the specification's by C02_spec_bytes_decode)
+				if dec, err := codec.DecodeFrame(bytes.NewReader(enc)); err == nil {
+					if want, got := show.Frame(show.Normalize(orig)), show.Frame(show.Normalize(dec)); want != got {
+						res.Add(lp.Finding{Kind: "violation", What: "emitted bytes denote a different message than the frame that was encoded (" + kind + ")",
+							Input: id + " bytes=" + hx(enc), Impl: "bytes denote: " + trunc(got), Model: "frame encoded: " + trunc(want)})
+					}
+					ask("frame dec none "+hx(enc), fmt.Sprintf("ok %d %s", len(enc), show.Frame(dec)), id+" "+show.Frame(f))
+				} else {
+					res.Add(lp.Finding{Kind: "violation", What: "emitted bytes are not decoded back: " + firstWords(err.Error()), Input: id + " bytes=" + hx(enc)})
+				}
 				res.Case(hx(enc), len(enc) > headerLen(v))
 				res.Count("kind/" + kind)
 				res.Count(fmt.Sprintf("version/%d", v))
@@ -86,6 +98,11 @@ func runC02(res *lp.Result) {
 			continue
 		}
 		nd++
+		if strings.HasPrefix(lines[i], "frame dec ") {
+			res.Add(lp.Finding{Kind: "disagreement", What: "model and implementation read the emitted bytes differently (" + firstWord(descr[i]) + ")",
+				Input: descr[i], Impl: trunc(expect[i]), Model: trunc(a)})
+			continue
+		}
 		if !strings.HasPrefix(a, "ok ") {
 			res.Add(lp.Finding{Kind: "disagreement", What: "model cannot decode a frame the implementation emitted (" + firstWord(descr[i]) + ")",
 				Input: descr[i], Impl: trunc(expect[i]), Model: trunc(a)})
